@@ -41,8 +41,13 @@ def cases(tier, seed):
 
 
 def _rand_str(rng, lo=0, hi=80):
+    """Printable ASCII incl. blanks; one in four strings is blank-padded (fixed-width writers, edit_header padding)."""
     n = int(rng.integers(lo, hi + 1))
-    return "".join(chr(c) for c in rng.integers(33, 127, size=n))
+    s = "".join(chr(c) for c in rng.integers(32, 127, size=n))
+    if n >= 2 and rng.random() < 0.25:
+        k = int(rng.integers(1, max(2, n // 2)))
+        s = (" " * k + s)[:n] if rng.random() < 0.5 else (s + " " * k)[-n:] if rng.random() < 0.3 else s[: n - k] + " " * k
+    return s
 
 
 def _rand_val(rng, code):
